@@ -113,6 +113,17 @@ ServerResume(h, asAck) ==
     /\ hist' = Append(hist, H("resume", "", h, ""))
     /\ UNCHANGED <<srvOut, rpos, tasks, cut, recvAlive, errCb, discEv, nsend>>
 
+\* ... or the server refuses the resumption (<failed/>): the client binds a fresh session and enables stream management
+\* again. Nothing of the old session is left: counters restart, nothing is held (Resume() sends no initial presence).
+Fresh == [inbound |-> 0, held |-> <<>>, out |-> 0, cliOut |-> <<>>, handled |-> <<>>]
+ServerRefuseResume ==
+    /\ SM /\ EnvOK /\ Cnt0(hist, "resume") < MaxResume
+    /\ rpos = Len(srvOut) /\ tasks = {}          \* everything the old connection delivered has been dealt with
+    /\ st' = Fresh
+    /\ srvOut' = <<>> /\ rpos' = 0               \* a new connection, a new session: the server's output starts again
+    /\ hist' = Append(hist, H("resume", "refused", 0, ""))
+    /\ UNCHANGED <<tasks, cut, recvAlive, errCb, discEv, nsend>>
+
 ServerCut ==
     /\ AllowCut /\ EnvOK
     /\ cut' = TRUE /\ hist' = Append(hist, H("cut", "", 0, ""))
@@ -148,6 +159,7 @@ Next == \/ \E k \in SrvKinds : ServerSend(k, 0)
         \/ \E h \in 0..MaxH : ServerSend("a", h)
         \/ ServerCut
         \/ \E h \in 0..MaxH, b \in BOOLEAN : ServerResume(h, b)
+        \/ ServerRefuseResume
         \/ \E x \in SendKinds : UserSend(x[1], x[2])
         \/ Recv \/ RecvErr
         \/ \E i \in tasks : RouteRun(i)
@@ -165,7 +177,11 @@ C05_OnlyReceivedStanzas == \A i \in 1..Len(st.handled) :
 C05_RoutedExactlyOnce == Quiescent =>
       {st.handled[i] : i \in 1..Len(st.handled)} = {srvOut[j].tag : j \in SrvIdx(LAMBDA e : IsStanza(e.k))}
 \* every acknowledgement request is answered
-UserAs == Cnt(hist, LAMBDA e : e.op = "send" /\ e.k = "a")
+LastRefuse == IF \E i \in 1..Len(hist) : hist[i].op = "resume" /\ hist[i].k = "refused"
+              THEN CHOOSE i \in 1..Len(hist) : hist[i].op = "resume" /\ hist[i].k = "refused"
+                                               /\ \A j \in (i + 1)..Len(hist) : ~(hist[j].op = "resume" /\ hist[j].k = "refused")
+              ELSE 0
+UserAs == Cnt(SubSeq(hist, LastRefuse + 1, Len(hist)), LAMBDA e : e.op = "send" /\ e.k = "a")
 C05_EveryRAnswered == Quiescent =>
       Cnt(st.cliOut, LAMBDA w : w.k = "a") - UserAs = Cnt(SubSeq(srvOut, 1, rpos), LAMBDA e : e.k = "r")
 
